@@ -10,7 +10,7 @@ PID = "C17"
 MODULES = ["GroupbyVerif.Props.C17"]
 RULE = ("seeded random Series / DataFrames (<= 14 rows, 1-3 value columns of float / int dtype with nulls, keys of int / str / float-with-null class) with an "
         "arbitrary index (default, shuffled integers, strings, duplicated labels, a 2-level MultiIndex whose levels can serve as keys) x keys given as column "
-        "names, arrays / Series, index level names or numbers, and mixtures x column selection (none, one column, a list) x every facade method "
+        "names, arrays / Series, index level names or numbers, a callable applied to the index labels, and mixtures x column selection (none, one column by [] or by attribute, a list) x every facade method "
         "(sum mean min max count size std var first last median, agg by name, cumsum cummin cummax cumcount, rolling sum / mean / min / max, nth / head / tail "
         "with the core's defaults, ema, iteration, groups, ngroups); three oracles: (1) the core engine GroupBy(resolved keys).<method>(selected value "
         "columns) - identical labels, columns, numbers; (2) pandas obj.groupby(...)[selection].<method>() for the null-skipping operations pandas offers - "
@@ -25,10 +25,10 @@ MAX_WORKERS = 12
 AGG = ["sum", "mean", "min", "max", "count", "size", "std", "var", "first", "last", "median"]
 CUM = ["cumsum", "cummin", "cummax", "cumcount"]
 ROLL = ["rolling_sum", "rolling_mean", "rolling_min", "rolling_max"]
-OTHER = ["agg:sum", "agg:max", "iter", "groups", "ngroups", "ema", "head", "tail", "nth"]
+OTHER = ["agg:sum", "agg:max", "iter", "groups", "ngroups", "ema", "head", "tail", "nth", "apply:nansum", "aggf:nanmax"]
 METHODS = AGG + CUM + ROLL + OTHER
 INDEX_KINDS = ["default", "shuffled_int", "str", "dup", "multi"]
-KEY_SPECS = ["col", "col2", "array", "series", "level_name", "level_num", "col+array", "col+level", "index_name"]
+KEY_SPECS = ["col", "col2", "array", "series", "level_name", "level_num", "col+array", "col+level", "index_name", "callable"]
 
 
 def setup_worker():
@@ -58,6 +58,10 @@ def gen_cases(tier, rng):
             index_kind = "multi"
         if key_spec == "index_name" and index_kind == "multi":
             index_kind = "str"
+        if key_spec == "callable":
+            kind = "frame"
+            if index_kind == "multi":
+                index_kind = rng.choice(["default", "shuffled_int", "str", "dup"])
         if kind == "series" and key_spec in ("col", "col2", "col+array", "col+level"):
             key_spec = rng.choice(["array", "series", "level_name" if index_kind == "multi" else "array"])
         nvals = rng.choice([1, 2, 3])
@@ -74,7 +78,7 @@ def gen_cases(tier, rng):
         if kclass == "float_null":
             k1 = [None if rng.random() < 0.2 else v for v in k1]
         lvl0 = [rng.randrange(rng.randint(1, 3)) for _ in range(n)]
-        selection = rng.choice([None, None, "one", "list"]) if kind == "frame" else None
+        selection = rng.choice([None, None, "one", "list", "attr"]) if kind == "frame" else None
         yield dict(n=n, kind=kind, index_kind=index_kind, key_spec=key_spec, cols=cols, kclass=kclass, k1=k1, k2=k2, lvl0=lvl0, selection=selection,
                    method=rng.choice(METHODS), perm=rng.sample(range(n), n), window=rng.choice([1, 2, 3]))
 
@@ -182,6 +186,10 @@ def evaluate(case, drv):
         by, resolved, key_cols = ["ka", k2.copy()], [k1, k2], ["ka"]
     elif ks == "col+level":
         by, level, resolved, key_cols = "ka", "L0", [k1, np.asarray(index.get_level_values(0))], ["ka"]
+    elif ks == "callable":
+        def label_key(x):
+            return (x if isinstance(x, (int, np.integer)) else int(str(x)[1:])) % 2
+        by, resolved = label_key, [np.array([label_key(x) for x in index], dtype=np.int64)]
     elif ks == "index_name":
         if index.name is None:
             index = index.rename("idx")
@@ -193,6 +201,9 @@ def evaluate(case, drv):
     obj = frame if frame is not None else series
     expected_cols = [c for c in (frame.columns if frame is not None else ["v0"]) if c not in key_cols]
     sel = case["selection"]
+    attr_access = sel == "attr"
+    if attr_access:
+        sel = "one"
     if sel == "one":
         sel_cols = [expected_cols[-1]] if expected_cols else None
         if sel_cols and sel_cols[0] in ("ka", "kb"):
@@ -218,7 +229,7 @@ def evaluate(case, drv):
             kw["level"] = level
         g = obj.groupby_fast(**kw)
         if sel == "one" and sel_cols:
-            g = g[sel_cols[0]]
+            g = getattr(g, sel_cols[0]) if attr_access else g[sel_cols[0]]
         elif sel == "list" and sel_cols is not None:
             g = g[sel_cols]
         return g
@@ -262,6 +273,10 @@ def evaluate(case, drv):
             return getattr(r, m[8:])()
         if m == "ema":
             return g.ema(alpha=0.5)
+        if m == "apply:nansum":
+            return g.apply(np.nansum)
+        if m == "aggf:nanmax":
+            return g.agg(np.nanmax)
         if m in ("head", "tail"):
             return getattr(g, m)(2)
         if m == "nth":
@@ -284,6 +299,10 @@ def evaluate(case, drv):
             return getattr(gb, m)(vals, window=w, min_periods=1)
         if m == "ema":
             return gb.ema(vals, alpha=0.5)
+        if m == "apply:nansum":
+            return gb.apply(vals, np.nansum)
+        if m == "aggf:nanmax":
+            return gb.apply(vals, np.nanmax)
         if m in ("head", "tail"):
             return getattr(gb, m)(vals, 2, keep_input_index=True)
         if m == "nth":
